@@ -181,19 +181,28 @@ func VerifC10_Files() {
 		"plain.vuego":        "---\ntitle: P\n---\n<p>plain {{ title }} {{ t }}</p>",
 		"docs/other.vuego":   "---\nlayout: wrap.vuego\n---\n<p>other {{ t }}</p>",
 	}
-	pages := []string{"blog/post.vuego", "docs/page.vuego", "plain.vuego", "docs/other.vuego"}
+	// a page that counts in its own front-matter key at top level
+	files["count.vuego"] = "---\ncount: 0\nlabel: first\n---\n<template :count=\"count + 1\" label=\"seen\"></template><p>{{ label }} {{ count }}</p>"
+	pages := []string{"blog/post.vuego", "docs/page.vuego", "plain.vuego", "docs/other.vuego", "count.vuego"}
 	fsys := newZZFS(files)
 	used := NewFS(fsys)
-	render := func(tpl Template, page string, v int) (string, error) {
+	usedVue := NewVue(fsys)
+	// through the template API with data, or through Vue.Render with no data at all
+	bare := zzBool("vueRenderWithoutData")
+	render := func(tpl Template, vue *Vue, page string, v int) (string, error) {
 		w := &zzWriter{limit: 1 << 20}
+		if bare {
+			err := vue.Render(w, page, nil)
+			return string(w.got), err
+		}
 		err := tpl.Load(page).Fill(zzC10Data(v)).Render(contextBackground(), w)
 		return string(w.got), err
 	}
 	for step := 0; step < L; step++ {
 		page := pages[zzChoice("page", len(pages))]
 		v := zzChoice("data", 2)
-		out, err := render(used, page, v)
-		fresh, ferr := render(NewFS(fsys), page, v)
+		out, err := render(used, usedVue, page, v)
+		fresh, ferr := render(NewFS(fsys), NewVue(fsys), page, v)
 		zzNote("page", page)
 		zzNote("used", out)
 		zzNote("fresh", fresh)
